@@ -14,6 +14,10 @@ pub struct C09 {
     /// true: start from a breaker that was forced open and whose wait has elapsed;
     /// false: start closed and let the exploration open it through failures
     pub prepared: bool,
+    /// start in the second half-open-ready period with a *straggler*: two trial calls were
+    /// admitted in a first half-open period, one failed (breaker re-opened, wait elapsed
+    /// again), the other is still running and may be cancelled at any point
+    pub straggler: bool,
 }
 
 pub struct X {
@@ -51,7 +55,7 @@ impl Scenario for C09 {
         "C09"
     }
     fn label(&self) -> String {
-        format!("c09 {} callers={} prepared={}", self.cfg.label(), self.callers, self.prepared)
+        format!("c09 {} callers={} prepared={}{}", self.cfg.label(), self.callers, self.prepared, if self.straggler { " straggler-from-earlier-half-open-period" } else { "" })
     }
     fn callers(&self) -> usize {
         self.callers
@@ -62,7 +66,18 @@ impl Scenario for C09 {
             w.block_on(svc.force_open());
             w.advance(self.cfg.wait_ms);
         }
-        X { svc, tl, pre_trials_full: false, pre_had_inner: false, saw_reject_beyond: false }
+        let mut x = X { svc, tl, pre_trials_full: false, pre_had_inner: false, saw_reject_beyond: false };
+        if self.straggler {
+            // first half-open period: callers 0 and 1 become trial calls, 0 fails
+            self.arrive(w, &mut x, 0, 0);
+            w.poll_caller(0);
+            self.arrive(w, &mut x, 1, 0);
+            w.poll_caller(1);
+            w.complete(0, Out::Err(0));
+            w.poll_caller(0);
+            w.advance(self.cfg.wait_ms);
+        }
+        x
     }
     fn arrive(&self, w: &mut World, x: &mut X, c: usize, _v: u8) {
         let mut h = x.svc.clone_box();
